@@ -583,6 +583,37 @@ pub fn run(sink: &mut Sink, rng: &mut Rng, thorough: bool, dir: &Path) {
       sink.emit(&format!("cli_from_uranges {} {}", depth, l), &ans, true);
     }
   }
+  // RANDOM civil dates (years 1583..2400: ends of months, 28 / 29 February, century years, 31 December) against the
+  // MODEL of the tool's date conversion (`Calendar.isoUsec`: gregorian2jd proved to count days)
+  {
+    let n = if thorough { 60 } else { 8 };
+    for k in 0..n {
+      let mut dates: Vec<(u64, u64, u64, u64, u64, u64, u64)> = Vec::new();
+      for j in 0..6 {
+        let y = match (k + j) % 5 { 0 => [1600u64, 1700, 1800, 1900, 2000, 2100, 2400][rng.below(7) as usize], 1 => 4 * (400 + rng.below(200)), _ => 1583 + rng.below(818) };
+        let leap = y % 4 == 0 && (y % 100 != 0 || y % 400 == 0);
+        let m = if j % 3 == 0 { 2 } else { 1 + rng.below(12) };
+        let len = match m { 2 => if leap { 29 } else { 28 }, 4 | 6 | 9 | 11 => 30, _ => 31 };
+        let d = match rng.below(4) { 0 => len, 1 => 1, 2 => len.min(28), _ => 1 + rng.below(len) };
+        let (h, mi, s) = (rng.below(24), rng.below(60), rng.below(60));
+        let us = if k % 2 == 0 { 0 } else { [0u64, 1, 250_000, 999_999, 123_456][rng.below(5) as usize] };
+        dates.push((y, m, d, h, mi, s, us));
+      }
+      let tt = if k % 2 == 0 { "isosimple" } else { "isorfc" };
+      let depth = [61u8, 40, 27, 14][(k % 4) as usize];
+      let input: String = dates.iter().map(|x| {
+        let frac = if x.6 == 0 { String::new() } else { let f = format!("{:06}", x.6); format!(".{}", f.trim_end_matches('0')) };
+        format!("{:04}-{:02}-{:02}T{:02}:{:02}:{:02}{}{}\n", x.0, x.1, x.2, x.3, x.4, x.5, frac, if tt == "isorfc" { "Z" } else { "" })
+      }).collect();
+      let outp = dir.join("from_isodate.fits");
+      let _ = fs::remove_file(&outp);
+      let o = moc(&["from", "timestamp", "--time-type", tt, &depth.to_string(), "-", "fits", outp.to_str().unwrap()], Some(&input));
+      let ans = if o.code == 0 { decode(&outp, "fits", "time") } else { format!("exit {} {}", o.code, o.err.lines().next().unwrap_or("")) };
+      sink.count("from-timestamp:iso-random-dates");
+      let l = dates.iter().map(|x| format!("{}-{}-{}-{}-{}-{}-{}", x.0, x.1, x.2, x.3, x.4, x.5, x.6)).collect::<Vec<_>>().join(",");
+      sink.emit(&format!("cli_from_iso {} {}", depth, l), &ans, true);
+    }
+  }
   // instants that are not in the time domain [0, 2^62) us: no cell exists for them; the tool must not write one
   for (tt, val) in [("usec", "4611686018427387904"), ("usec", "18446744073709551615"), ("jd", "nan"), ("jd", "-5"), ("jd", "1e10"), ("jd", "inf"), ("mjd", "-2400001")] {
     let outp = dir.join("from_ood.ascii");
